@@ -532,6 +532,57 @@ where
     }
 }
 
+/// Targets whose log-density is NaN outside the support (ln / sqrt of negative arguments), started
+/// inside: a leaf with NaN energy is neither admissible nor "still going".
+fn nan_region_trace_case<T, B>(ctx: &Ctx, rep: &mut Report, case: u64, g: &mut Sm64, bname: &str, beps: f64)
+where
+    T: Scalar,
+    B: AutodiffBackend,
+    StandardNormal: Distribution<T>,
+    StandardUniform: Distribution<T>,
+    Exp1: Distribution<T>,
+{
+    let mon = "trace";
+    let teps = if T::NAME == "f32" { f32::EPSILON as f64 } else { f64::EPSILON };
+    let target = Hostile { kind: if g.bool() { 1 } else { 3 }, d: g.range(1, 3), p: g.uniform(0.8, 2.5) };
+    let seed = g.next_u64();
+    let start = target.start(g);
+    let init: Vec<T> = start.iter().map(|x| T::of(*x)).collect();
+    let q: Vec<f64> = init.iter().map(|x| x.f()).collect();
+    if !target.logp64(&q).is_finite() {
+        return;
+    }
+    let n = if ctx.thorough { 24 } else { 12 };
+    let cfg = json!({"target": Hostile::name(&target), "T": T::NAME, "backend": bname, "dim": target.d, "seed": seed, "mode": "NaN outside the support", "init": q});
+    rep.distinct(("trace-nan", T::NAME, bname.to_string(), target.kind, case));
+    reset_budget(1 << 15);
+    hook::enable();
+    let r = guard(|| {
+        let mut chain = NUTSChain::<T, B, Hostile>::new(target.clone(), init.clone(), T::of(0.8)).set_seed(seed);
+        let _ = chain.run(n, *g.choose(&[0usize, 3]));
+    });
+    let events = hook::take();
+    hook::disable();
+    reset_budget(u64::MAX);
+    if let Err(m) = r {
+        if m.contains(BUDGET_MSG) {
+            rep.inconclusive("target-evaluation budget (2^15 per transition) exhausted: trajectory too long to monitor");
+        } else {
+            rep.violation("NUTSChain::step panic", mon, case, json!({"cfg": cfg, "panic": m}));
+        }
+        return;
+    }
+    let traces = parse(&events);
+    rep.evals(traces.len() as u64);
+    for t in &traces {
+        let nan_leaves = t.leaves.iter().filter(|l| l.0.is_nan()).count();
+        rep.count_n("leaves_with_NaN_energy", nan_leaves as u64);
+        if !check_transition(rep, mon, case, g, &target, t, beps, teps, &cfg) {
+            return;
+        }
+    }
+}
+
 fn tv1<B: Backend>(t: &Tensor<B, 1>) -> Vec<f64> {
     t.to_data().iter::<f64>().collect()
 }
@@ -796,6 +847,14 @@ pub fn run(ctx: &Ctx, rep: &mut Report) {
     let e64 = f64::EPSILON;
     for c in ctx.case_ids("trace", 320, 160_000) {
         let mut g = ctx.rng("trace", c);
+        if c % 16 == 3 {
+            if (c / 16) % 2 == 0 {
+                nan_region_trace_case::<f64, B64>(ctx, rep, c, &mut g, "NdArray<f64>", e64);
+            } else {
+                nan_region_trace_case::<f32, B32>(ctx, rep, c, &mut g, "NdArray<f32>", e32);
+            }
+            continue;
+        }
         if c % (if ctx.thorough { 48 } else { 16 }) == 11 {
             if (c / 48) % 4 == 3 {
                 deep_trace_case::<f32, B32>(ctx, rep, c, &mut g, "NdArray<f32>", e32);
